@@ -120,35 +120,7 @@ class _Transport:
         return ("192.0.2.1", 4711) if name == "peername" else default
 
 
-def _why40(meta: str) -> str:
-    if meta.startswith("File encoding error"):
-        return "notutf8"
-    if meta.startswith("Permission denied"):
-        return "denied"
-    if meta.startswith("Error generating directory listing:"):
-        return "listing"
-    if meta.startswith("Server error:"):
-        return "ioerror"
-    return "other:" + meta[:30]
-
-
-def _canon_response(status, meta, body, req_path, built: T.Built):
-    """(compared part, oracle part) of one response"""
-    text = (meta or "") + "\n" + (body or "")
-    x = {"st": status, "sent": T.sentinels_in(text), "metasent": T.sentinels_in(meta or ""), "mark": T.MARK in text,
-         "nobody": body is None or body == ""}
-    if status == 20:
-        ids = T.sentinels_in((body or "")[:40])
-        if body and body.startswith("@@S") and len(ids) == 1:
-            mime = "gem" if meta == "text/gemini" else "plain" if meta == "text/plain" else "mime:" + str(meta)
-            return ["20", "file", ids[0], mime, built.real_rel(ids[0])], x
-        names = T.listing_names(body or "", req_path)
-        if names is not None:
-            return ["20", "listing", names], x
-        return ["20", "unknown", (body or "")[:40]], x
-    if status == 40:
-        return ["40", _why40(meta or "")], x
-    return [str(status)], x
+_canon_response = T.canon_response
 
 
 def run_static(case, proto_sample: int = 3):
@@ -180,14 +152,12 @@ def run_static(case, proto_sample: int = 3):
                 tr = _Transport()
                 p = GeminiServerProtocol(h.handle)
                 p.connection_made(tr)
-                p.data_received(("gemini://h" + sp).encode("utf-8") + b"\r\n")
-                head, _, body = tr.out.partition(b"\r\n")
                 try:
-                    st, meta = int(head[:2]), head[3:].decode("utf-8", "replace")
-                except ValueError:
-                    st, meta = -1, head.decode("utf-8", "replace")
-                btxt = body.decode("utf-8", "replace")
-                pr, px = _canon_response(st, meta, btxt if body else None, req.path if req is not None else "/", built)
+                    p.data_received(("gemini://h" + sp).encode("utf-8") + b"\r\n")
+                except Exception as e:  # noqa: BLE001  (the protocol itself raised: nothing well-formed was sent)
+                    tr.out = b"00 protocol raised " + type(e).__name__.encode() + b"\r\n"
+                st, meta, btxt = T.parse_wire(tr.out)
+                pr, px = _canon_response(st, meta, btxt, req.path if req is not None else "/", built)
                 o["p"], o["px"] = pr, px
                 o["pclosed"] = tr.closed
             res.append(o)
@@ -247,17 +217,7 @@ class Static(Family):
             if u[0] != "ok":
                 res.append(["reject"])
                 continue
-            f = o.split(" ")
-            if f[0] == "20" and f[1].startswith("file"):
-                r = ["20", "file", int(f[1][4:]), f[2], T.dec_path(f[3])]
-            elif f[0] == "20":
-                r = ["20", "listing", sorted(T.dec_name(n) for n in f[3:] if n)]
-            elif f[0] == "40":
-                r = ["40", f[1]]
-            elif f[0] == "raised":
-                r = ["raised"]
-            else:
-                r = [f[0]]
+            r = T.parse_static_out(o)
             res.append([u[1]] + r)
         return res
 
@@ -318,14 +278,7 @@ class Static(Family):
 
 def _wire_of(e):
     """what the protocol layer must put on the wire for a handler-level expectation"""
-    if e == ["reject"]:
-        return ["59"]
-    r = e[1:]
-    if r == ["raised"]:
-        return ["40", "ioerror"]
-    if r[:2] == ["20", "listing"] and any(0xD800 <= ord(c) <= 0xDFFF for n in r[2] for c in n):
-        return ["40", "ioerror"]          # the listing cannot be encoded: "Server error: response body is not valid text"
-    return r
+    return T.wire_of(e if e == ["reject"] else e[1:])
 
 
 class CanonFam(Family):
@@ -412,8 +365,12 @@ class Realpath(Family):
             tree = T.settle(T.normalise(ents))
             leaf = [e[1].split("/")[-1] for e in tree] or ["a"]
             for _ in range(6):
-                yield {"tree": tree, "path": "/".join(rng.choice(N[:3] + [".", ""] + leaf * 3 + ([".."] if rng.random() < 0.5 else []))
-                                                     for _ in range(rng.randint(1, 6)))}
+                rand = "/".join(rng.choice(N[:3] + [".", ""] + leaf * 3 + ([".."] if rng.random() < 0.5 else [])) for _ in range(rng.randint(1, 4)))
+                if tree and rng.random() < 0.6:      # start from something that exists
+                    path = rng.choice(tree)[1] + rng.choice(["", "", "/", "/" + rand, "/./", "/../" + rng.choice(leaf)])
+                else:
+                    path = rand
+                yield {"tree": tree, "path": path}
                 made += 1
 
     def impl(self, case):
@@ -450,10 +407,16 @@ class Realpath(Family):
         if mk != "none":
             k, _, loc = mk.partition("@")
             mk = k + "@" + T.dec_path(loc)
-        return [mp, mk]
+        return [mp, mk, f[1] == "true"]
 
     def same(self, expected, obs):
-        return obs["ents_ok"] and (obs["r"] is None or obs["r"] == expected)
+        if not obs["ents_ok"]:
+            return False
+        if obs["r"] is None:
+            return True
+        mp, mk, ok = expected
+        # on a symlink loop realpath() hands back a lexically normalised remainder: only that path is compared
+        return obs["r"][0] == mp and (not ok or obs["r"][1] == mk)
 
     def key(self, case, obs):
         return "skip" if obs["r"] is None else obs["r"][1].split("@")[0][:4] + (":links" if any(e[0] == "l" for e in case["tree"]) else "")
